@@ -52,7 +52,13 @@ def fmtn(tier, timeout=280):
              unwind=24, unwindset=['strlen.0:140'], tier=tier, timeout=timeout,
              bounds='one statement with named arguments whose per-argument rendering (_format_and_split_arguments, a hook) succeeds / throws a std::exception-derived error / throws a non-std object',
              what='real _populate_formatted_named_args: nothing escapes whatever the rendering throws (so the record is always marked read)')
-QUERIES = [ev(2, 'quick'), fmt('quick'), fmtn('quick'), flushev(2, 'quick'), sinks(2, 2, 'quick'), flush(2, 'quick'), ev(3, 'thorough', 1700), sinks(1, 2, 'thorough', 1700), sinks(2, 1, 'thorough', 1700)]
+def btf(tier, timeout=280):
+    return Q('backtrace_flush_throw', 'C10_exc.cpp', 'h_backtrace_flush', defines=['NCTX=1', 'NEVT=2', 'NSINK=2', 'TEBCAP=2'], exc=True, cuts=TE_CUTS, forbid=[x for x in K3F if 'BacktraceStorage' not in x] + FMTF,
+             hooks=[DISPATCH, PF], models=['m_transit.c', 'm_throw.c', 'm_env.c'], libmodels=['m_string.c', 'm_stl.c', 'm_eh.c'], cdefs=['VLL_STRBLOCK=160'], byteloops=True,
+             unwind=24, unwindset=['strlen.0:140', 'vll_memcpy.0:70', 'vll_memmove.0:70', 'vll_memmove.1:70'], tier=tier, timeout=timeout,
+             bounds='logger with 2 stored backtrace statements and flush level = the statements\' level; 2 ordinary statements; the dispatch of each stored statement throws nothing / std error / non-std object (symbolic)',
+             what='real _process_transit_event -> BacktraceStorage::process -> per-statement dispatch: each stored statement is handed out exactly once (not again at the next flush, not skipped because a neighbour failed), each failure reported once, nothing escapes')
+QUERIES = [ev(2, 'quick'), btf('quick'), fmt('quick'), fmtn('quick'), flushev(2, 'quick'), sinks(2, 2, 'quick'), flush(2, 'quick'), ev(3, 'thorough', 1700), sinks(1, 2, 'thorough', 1700), sinks(2, 1, 'thorough', 1700)]
 BOUNDS = 'quick: 2 events x 4 failure kinds, 2 events x 2 throwing sinks, 2 sinks throwing on flush, one Flush request, one unformattable statement; thorough: 3 events, other event/sink counts'
 OUTSIDE = 'the read/decode loop around _populate_formatted_log_message (K1: out of memory) and the poll loop with its outer catch-all; libfmt itself (which run-time format errors it raises); user codecs; exceptions thrown while another is being handled; catch-by-value copies'
 ASSUMPTIONS = ['C++ exceptions = pending-exception model of the translator (flag + object + typeinfo; invoke/landingpad/resume/__cxa_throw/__cxa_begin_catch; type matching over the typeinfo chain), validated per run against the real C++ runtime on 60 random native runs',
